@@ -1,7 +1,11 @@
 import ElexModel.Core.Conformal
+import ElexModel.Gen.C04
 import ElexModel.Lemmas.Num
 import ElexModel.Lemmas.Quantile
 import Mathlib.Data.List.Perm.Basic
+import Mathlib.Tactic.Linarith
+import Mathlib.Algebra.Order.Floor.Ring
+import Mathlib.Data.Rat.Floor
 
 /-!
 # C04 — nonparametric intervals are conformally calibrated
@@ -337,5 +341,267 @@ example : popCorrection [(-1/8, 4), (-1/4, 4)] (1/2) = some (-1/8) := by decide 
 example : popCorrection [(-1/8, 4), (-1/4, 4)] (7/16) = some (-1/4) := by decide +kernel
 example : correction true [(1, 1), (0, 7)] (1/2) = some (1/2) ∧ correction false [(1, 1), (0, 7)] (1/2) = some 0 := by
   decide +kernel
+
+end ElexModel.Conformal
+
+namespace ElexModel.Conformal
+open ElexModel
+
+/-! ### the counting core of split-conformal coverage (equal weights) -/
+
+theorem wTot_unitW (l : List ℚ) : wTot (unitW l) = l.length := by
+  induction l with
+  | nil => simp [unitW, wTot]
+  | cons a t ih =>
+    simp only [unitW, List.map_cons, wTot, List.length_cons] at *
+    rw [ih]; push_cast; ring
+
+theorem wBelow_unitW (c : ℚ) (l : List ℚ) : wBelow c (unitW l) = (l.countP (fun s => decide (s ≤ c)) : ℕ) := by
+  induction l with
+  | nil => simp [unitW, wBelow]
+  | cons a t ih =>
+    simp only [unitW, List.map_cons, wBelow] at *
+    rw [ih, List.countP_cons]
+    by_cases h : a ≤ c
+    · simp [h]; ring
+    · simp [h]
+
+/-- number of values strictly below `x` -/
+def countLt (l : List ℚ) (x : ℚ) : ℕ := l.countP (fun s => decide (s < x))
+
+theorem countLt_perm {l l' : List ℚ} (h : l.Perm l') (x : ℚ) : countLt l x = countLt l' x := h.countP_eq _
+
+/-- number of values with at least `k` values strictly below them -/
+def highRank (k : ℕ) (l : List ℚ) : ℕ := l.countP (fun x => decide (k ≤ countLt l x))
+
+theorem highRank_sorted (l : List ℚ) (hs : l.Pairwise (· ≤ ·)) (k : ℕ) : highRank k l ≤ l.length - k := by
+  induction l generalizing k with
+  | nil => simp [highRank]
+  | cons a r ih =>
+    have hs' := List.pairwise_cons.mp hs
+    cases k with
+    | zero => simp [highRank]
+    | succ k =>
+      have ha : countLt (a :: r) a = 0 := by
+        unfold countLt
+        rw [List.countP_eq_zero]
+        intro x hx
+        rcases List.mem_cons.mp hx with rfl | hx
+        · simp
+        · have := hs'.1 x hx
+          simp only [decide_eq_true_eq, not_lt]; exact this
+      have hmono : r.countP (fun x => decide (k + 1 ≤ countLt (a :: r) x)) ≤ highRank k r := by
+        unfold highRank
+        apply List.countP_mono_left
+        intro x _ hx
+        simp only [decide_eq_true_eq] at hx ⊢
+        have : countLt (a :: r) x ≤ 1 + countLt r x := by
+          unfold countLt
+          rw [List.countP_cons]
+          split <;> omega
+        omega
+      have := ih hs'.2 k
+      unfold highRank at *
+      rw [List.countP_cons, ha]
+      simp only [List.length_cons]
+      have h0 : ¬ (k + 1 ≤ 0) := by omega
+      simp only [h0, decide_false, Bool.false_eq_true, if_false]
+      omega
+
+theorem highRank_perm {l l' : List ℚ} (h : l.Perm l') (k : ℕ) : highRank k l = highRank k l' := by
+  unfold highRank
+  rw [h.countP_eq]
+  apply List.countP_congr
+  intro x _
+  rw [countLt_perm h x]
+
+/-- **at most `m − k` of `m` values have `k` or more values strictly below them** -/
+theorem highRank_le (l : List ℚ) (k : ℕ) : highRank k l ≤ l.length - k := by
+  rw [← highRank_perm (sortR_perm l) k, ← (sortR_perm l).length_eq]
+  exact highRank_sorted _ (sortR_pairwise l) k
+
+
+theorem map_getD_range (l : List ℚ) : (List.range l.length).map (fun i => l.getD i 0) = l := by
+  apply List.ext_getElem
+  · simp
+  · intro i h1 h2
+    simp [List.getD_eq_getElem?_getD, h2]
+
+theorem countP_range_getD (l : List ℚ) (P : ℚ → Bool) :
+    (List.range l.length).countP (fun i => P (l.getD i 0)) = l.countP P := by
+  conv_rhs => rw [← map_getD_range l]
+  rw [List.countP_map]; rfl
+
+theorem qLevel_mul (α : ℚ) (n : ℕ) (hn : 0 < n) : qLevel α n * n = α * (n + 1) := by
+  unfold qLevel
+  have : (n : ℚ) ≠ 0 := by positivity
+  field_simp
+
+theorem uncovered_high_rank (l : List ℚ) (n : ℕ) (hl : l.length = n + 1) (hn : 0 < n) (α : ℚ) (h0 : 0 ≤ α)
+    (h1 : qLevel α n < 1) (i : ℕ) (hi : i < n + 1) (hc : covered l (qLevel α n) i = false) :
+    ⌊α * (n + 1)⌋₊ + 1 ≤ countLt l (l.getD i 0) := by
+  have hlen : (l.eraseIdx i).length = n := by rw [List.length_eraseIdx]; simp [hl, hi]
+  have hq0 : 0 ≤ qLevel α n := by unfold qLevel; positivity
+  have hw : ∀ p ∈ unitW (l.eraseIdx i), 0 ≤ p.2 := by
+    intro p hp; unfold unitW at hp; obtain ⟨s, _, rfl⟩ := List.mem_map.mp hp; simp
+  obtain ⟨c, hcx⟩ := pop_exists (unitW (l.eraseIdx i)) (qLevel α n) hq0 h1 (by rw [wTot_unitW, hlen]; exact_mod_cast hn)
+  have hcal := pop_calibrated _ hw _ _ hcx
+  rw [wTot_unitW, wBelow_unitW, hlen, qLevel_mul α n hn] at hcal
+  unfold covered looCorrection at hc
+  rw [hcx] at hc
+  simp only [decide_eq_false_iff_not, not_le] at hc
+  have h2 : (l.eraseIdx i).countP (fun s => decide (s ≤ c)) ≤ countLt l (l.getD i 0) := by
+    unfold countLt
+    refine le_trans (List.countP_mono_left ?_) ((List.eraseIdx_sublist l i).countP_le)
+    intro x _ hx
+    simp only [decide_eq_true_eq] at hx ⊢
+    exact lt_of_le_of_lt hx hc
+  have h3 : α * (n + 1) < (countLt l (l.getD i 0) : ℕ) := lt_of_lt_of_le hcal (by exact_mod_cast h2)
+  have := (Nat.floor_lt (by positivity)).mpr h3
+  omega
+
+/-- **counting core of split-conformal coverage.**  Take any `n + 1` conformity scores (the `n` calibration units and one
+    further unit, in any order, ties allowed).  For each of them compute the correction from the *other* `n` with the corrected
+    level `α (1 + 1/n)` and equal weights.  Then strictly more than `α (n + 1)` of the `n + 1` scores are at most "their"
+    correction.  If the scores are exchangeable, the further unit is equally likely to be any of them, hence it is inside its
+    widened interval with probability above `α` — the probabilistic step is the only part that is assumed, not proved. -/
+theorem split_conformal_count (l : List ℚ) (n : ℕ) (hl : l.length = n + 1) (hn : 0 < n) (α : ℚ) (h0 : 0 ≤ α)
+    (h1 : qLevel α n < 1) :
+    α * (n + 1) < ((List.range (n + 1)).countP (covered l (qLevel α n)) : ℕ) := by
+  set k := ⌊α * (n + 1)⌋₊ + 1 with hk
+  have hbad : (List.range (n + 1)).countP (fun i => !covered l (qLevel α n) i) ≤ highRank k l := by
+    unfold highRank
+    rw [← countP_range_getD l, hl]
+    apply List.countP_mono_left
+    intro i hi hc
+    have hi' : i < n + 1 := List.mem_range.mp hi
+    simp only [Bool.not_eq_true'] at hc
+    simpa using uncovered_high_rank l n hl hn α h0 h1 i hi' hc
+  have hhr := highRank_le l k
+  have hsum := List.length_eq_countP_add_countP (covered l (qLevel α n)) (l := List.range (n + 1))
+  simp only [List.length_range] at hsum
+  have hkn : k ≤ n := by
+    have : α * (n + 1) < (n : ℕ) := by
+      rw [← qLevel_mul α n hn]
+      have : (0:ℚ) < n := by exact_mod_cast hn
+      nlinarith
+    have := (Nat.floor_lt (by positivity)).mpr this
+    omega
+  have hcov : k ≤ (List.range (n + 1)).countP (covered l (qLevel α n)) := by
+    have e : (List.range (n + 1)).countP (fun a => decide ¬covered l (qLevel α n) a = true) =
+        (List.range (n + 1)).countP (fun i => !covered l (qLevel α n) i) := by
+      apply List.countP_congr; intro i _; simp
+    rw [e] at hsum
+    omega
+  have : α * (n + 1) < (k : ℕ) := by rw [hk]; push_cast; exact Nat.lt_floor_add_one _
+  exact lt_of_lt_of_le this (by exact_mod_cast hcov)
+
+/-- non-vacuity: five scores with a tie, α = ½ (level 5/8 on four calibration units): three of the five are covered (> 5/2) -/
+example : looCorrection [3, 1, 2, 2, 5] (qLevel (1/2) 4) 0 = some 2 := by decide +kernel
+example : covered [3, 1, 2, 2, 5] (qLevel (1/2) 4) 0 = false := by decide +kernel
+example : (List.range 5).countP (covered [3, 1, 2, 2, 5] (qLevel (1/2) 4)) = 3 := by decide +kernel
+
+/-- **equal weights: the correction is an order statistic** — with equal positive weights the population correction is the
+    score of rank `⌊q·n⌋ + 1` -/
+theorem scan_equal_weights (w : ℚ) (hw : 0 < w) (N : ℚ) (q : ℚ) (l : List (ℚ × ℚ)) (hl : ∀ p ∈ l, p.2 = w)
+    (k : ℕ) (hk : (k : ℤ) ≤ ⌊q * N⌋) (hq : 0 ≤ q * N) :
+    scan (q * (N * w)) (k * w) l = (l[(⌊q * N⌋).toNat - k]?).map Prod.fst := by
+  induction l generalizing k with
+  | nil => simp [scan]
+  | cons p t ih =>
+    obtain ⟨s, w'⟩ := p
+    have hw' : w' = w := hl (s, w') (by simp)
+    subst hw'
+    unfold scan
+    have hfl : 0 ≤ ⌊q * N⌋ := Int.floor_nonneg.mpr hq
+    by_cases h : q * (N * w') < k * w' + w'
+    · rw [if_pos h]
+      have : q * N < k + 1 := by
+        have : q * N * w' < (k + 1) * w' := by nlinarith
+        exact lt_of_mul_lt_mul_right this hw.le
+      have : ⌊q * N⌋ < k + 1 := Int.floor_lt.mpr (by exact_mod_cast this)
+      have : (⌊q * N⌋).toNat - k = 0 := by omega
+      rw [this]; simp
+    · rw [if_neg h]
+      have : (k : ℚ) + 1 ≤ q * N := by
+        have : (k + 1) * w' ≤ q * N * w' := by nlinarith
+        exact le_of_mul_le_mul_right this hw
+      have hk1 : ((k + 1 : ℕ) : ℤ) ≤ ⌊q * N⌋ := Int.le_floor.mpr (by push_cast; exact this)
+      have := ih (fun p hp => hl p (List.mem_cons_of_mem _ hp)) (k + 1) hk1
+      have e : (k : ℚ) * w' + w' = ((k + 1 : ℕ) : ℚ) * w' := by push_cast; ring
+      rw [e, this]
+      have : (⌊q * N⌋).toNat - k = ((⌊q * N⌋).toNat - (k + 1)) + 1 := by omega
+      rw [this, List.getElem?_cons_succ]
+
+theorem wTot_const (w : ℚ) (l : List (ℚ × ℚ)) (hl : ∀ p ∈ l, p.2 = w) : wTot l = l.length * w := by
+  induction l with
+  | nil => simp [wTot]
+  | cons p t ih =>
+    obtain ⟨s, w'⟩ := p
+    have : w' = w := hl (s, w') (by simp)
+    subst this
+    simp only [wTot, List.length_cons]
+    rw [ih (fun p hp => hl p (List.mem_cons_of_mem _ hp))]; push_cast; ring
+
+/-- **equal weights: the correction is an order statistic.**  With equal positive weights on `n` calibration units the
+    population correction at level `q` is the score of rank `⌊q·n⌋ + 1` (so, at the corrected level `α (1 + 1/n)`, the score of
+    rank `⌊α (n + 1)⌋ + 1`, the textbook split-conformal quantile) -/
+theorem equal_weights_rank (w : ℚ) (hw : 0 < w) (sw : List (ℚ × ℚ)) (hl : ∀ p ∈ sw, p.2 = w) (q : ℚ) (hq : 0 ≤ q) :
+    popCorrection sw q = ((sortS sw)[(⌊q * sw.length⌋).toNat]?).map Prod.fst := by
+  unfold popCorrection
+  have hl' : ∀ p ∈ sortS sw, p.2 = w := fun p hp => hl p ((sortS_perm sw).mem_iff.mp hp)
+  have h := scan_equal_weights w hw sw.length q (sortS sw) hl' 0
+    (by simpa using Int.floor_nonneg.mpr (by positivity)) (by positivity)
+  rw [wTot_const w sw hl]
+  simpa using h
+
+example : popCorrection [(3, 2), (1, 2), (2, 2), (2, 2)] (5/8) = some 2 ∧ (⌊(5/8 : ℚ) * 4⌋).toNat = 2 := by decide +kernel
+
+end ElexModel.Conformal
+
+/-! ### bridge: the source of this run (regenerated by the translator) against the model the theorems are about -/
+
+namespace ElexModel.Conformal
+open ElexModel
+
+/-- conformity score as written in `get_unit_prediction_intervals` -/
+theorem bridge_score (lb ub : ℚ) : Gen.C04.score lb ub = score lb ub := rfl
+
+/-- the calibration bounds saved in the conformalization frame are `f_lo(x) − r` and `r − f_hi(x)`: with them, **being inside
+    the widened interval is the same as having a conformity score at most the correction** — on the source's own formulas -/
+theorem bridge_inside_iff (fitLo fitHi r c : ℚ) :
+    (fitLo - c ≤ r ∧ r ≤ fitHi + c) ↔
+      Gen.C04.score (Gen.C04.conf_lower_bound fitLo r) (Gen.C04.conf_upper_bound fitHi r) ≤ c :=
+  inside_iff_score_le fitLo fitHi r c
+
+theorem bridge_conf_columns : Gen.C04.conf_columns =
+    ["conformalization_data['upper_bounds'] = conformalization_upper_bounds",
+     "conformalization_data['lower_bounds'] = conformalization_lower_bounds"] := by decide
+
+/-- the correction applied by the source (`robust` → the larger of the two) is the model's `correction` -/
+theorem bridge_applied_correction (robust : Bool) (sw : List (ℚ × ℚ)) (q pc : ℚ) (h : popCorrection sw q = some pc) :
+    correction robust sw q = some (Gen.C04.applied_correction robust (npQuantile (sw.map Prod.fst) q) pc) := by
+  unfold correction Gen.C04.applied_correction
+  rw [h]
+  cases robust <;> rfl
+
+/-- final unit bounds of the source = `finalLower / finalUpper` at the applied correction -/
+theorem bridge_final_bounds (l u w part npq pc : ℚ) (robust : Bool) :
+    Gen.C04.final_lower l u w part robust npq pc = (finalLower l (Gen.C04.applied_correction robust npq pc) w part : ℚ) ∧
+    Gen.C04.final_upper l u w part robust npq pc = (finalUpper u (Gen.C04.applied_correction robust npq pc) w part : ℚ) :=
+  ⟨rfl, rfl⟩
+
+/-- both corrections are computed from the same scores at the same (corrected) level, on the conformalization frame that is
+    returned -/
+theorem bridge_correction_args :
+    Gen.C04.quantile_args = ["scores", "q=correction_quantile"] ∧
+    Gen.C04.population_correction_args = ["prediction_intervals.conformalization", "scores", "correction_quantile", "estimand"] ∧
+    Gen.C04.conformalization_returned = ["prediction_intervals.conformalization"] := by decide
+
+/-- shape of `_compute_population_correction`: weights normalised by their sum, sorted by score, cumulative sum, *strict*
+    comparison with the level, minimum of the remaining scores — the five things `popCorrection` models -/
+theorem bridge_population_correction_shape : Gen.C04.population_correction_shape =
+    ["cumsum()", "min(population_correction.scores)", "query('percent > @correction_quantile')", "sort_values('scores')",
+     "weights = conformalization_data[f'last_election_results_{estimand}'] / conformalization_data[f'last_election_results_{estimand}'].sum()"] := rfl
 
 end ElexModel.Conformal
